@@ -50,9 +50,10 @@ def run_route_after(ctx, model, lines, pend, focus, paths):
     """the configured route survives other calls: module info of another slot (which builds its own route from the
     configured one), then messages over the configured route"""
     rng = ctx.rng
+    # also a driver without route and one whose route ends at a network hop (the module route is built from the configured
+    # one: nothing of it may stay behind in the configuration)
+    paths = list(paths) + [("10.0.0.1/bp/1/enet/10.11.12.13", [(1, 1), (2, "10.11.12.13")])]
     for path, hops in paths:
-        if not hops:
-            continue
         for slot in (0, 1, 5):
             a = {"service": 0x0E, "class_code": 0x70, "instance": 2, "attribute": 1, "request_data": b"\x01\x02\x03", "name": "g",
                  "connected": False, "unconnected_send": True, "route_path": True}
